@@ -5,6 +5,7 @@ import (
 	"go/ast"
 	"go/token"
 	"go/types"
+	"regexp"
 	"sort"
 	"strings"
 )
@@ -157,7 +158,7 @@ func c16r2(c *RC) {
 			return true
 		}
 		t := strings.ReplaceAll(expr(ifs.Cond), " ", "")
-		if t != "typ.Kind()==reflect.Interface" {
+		if !strings.HasSuffix(t, ".Kind()==reflect.Interface") {
 			return true
 		}
 		for _, k := range callsIn(ifs.Body) {
@@ -184,7 +185,7 @@ func c16r2(c *RC) {
 	for _, f := range []*Func{enc, dec} {
 		ok := false
 		ast.Inspect(f.Body, func(n ast.Node) bool {
-			if a, isA := n.(*ast.AssignStmt); isA && len(a.Lhs) == 1 && expr(a.Lhs[0]) == "typ" {
+			if a, isA := n.(*ast.AssignStmt); isA && len(a.Lhs) == 1 && len(a.Rhs) == 1 {
 				if call, isC := a.Rhs[0].(*ast.CallExpr); isC && f.Pkg.CalleeName(call) == ".(*FuncValue).In" && len(call.Args) == 1 {
 					// the index is the loop variable of the enclosing loop over Args
 					if loop, isR := enclosingLoop(f.Body, a).(*ast.RangeStmt); isR && expr(loop.Key) == expr(call.Args[0]) && strings.HasSuffix(expr(loop.X), ".Args") {
@@ -208,15 +209,25 @@ func c16r2(c *RC) {
 		c.Fail(dec.QName()+"|type-directed-decode", pr.Pos(dec.Body.Pos()), "GobDecode no longer selects the decode target by parameter type")
 	} else {
 		arms := map[string]string{}
+		// the variable holding the parameter type (assigned from FuncValue.In)
+		typV := "typ"
+		ast.Inspect(dec.Body, func(n ast.Node) bool {
+			if a, ok := n.(*ast.AssignStmt); ok && len(a.Lhs) == 1 && len(a.Rhs) == 1 {
+				if k, ok := a.Rhs[0].(*ast.CallExpr); ok && dec.Pkg.CalleeName(k) == ".(*FuncValue).In" {
+					typV = expr(a.Lhs[0])
+				}
+			}
+			return true
+		})
 		for _, cs := range sw.Body.List {
 			cc := cs.(*ast.CaseClause)
 			cond := "default"
 			if len(cc.List) == 1 {
-				cond = strings.ReplaceAll(expr(cc.List[0]), " ", "")
+				cond = replaceWord(strings.ReplaceAll(expr(cc.List[0]), " ", ""), typV, "typ")
 			}
 			for _, st := range cc.Body {
 				if a, ok := st.(*ast.AssignStmt); ok && len(a.Rhs) == 1 {
-					arms[cond] = strings.ReplaceAll(expr(a.Rhs[0]), " ", "")
+					arms[cond] = replaceWord(strings.ReplaceAll(expr(a.Rhs[0]), " ", ""), typV, "typ")
 				}
 			}
 		}
@@ -229,10 +240,10 @@ func c16r2(c *RC) {
 			if a, ok := n.(*ast.AssignStmt); ok && len(a.Lhs) == 1 {
 				l := expr(a.Lhs[0])
 				r := strings.ReplaceAll(expr(a.Rhs[0]), " ", "")
-				if strings.HasSuffix(l, ".Args") && strings.Contains(r, "fv.NumIn()") {
+				if strings.HasSuffix(l, ".Args") && strings.Contains(r, ".NumIn()") {
 					sized = true
 				}
-				if strings.Contains(l, ".Args[") && r == "v.Elem().Interface()" {
+				if strings.Contains(l, ".Args[") && strings.HasSuffix(r, ".Elem().Interface()") {
 					stored = true
 				}
 			}
@@ -425,7 +436,7 @@ func c16r3(c *RC) {
 			return true
 		}
 		t := strings.ReplaceAll(expr(cc.List[0]), " ", "")
-		if strings.Contains(t, "errors.Is(errors.Invalid,err)") && strings.Contains(t, "errors.Match(fatalErr,err)") {
+		if m := regexp.MustCompile(`errors\.Is\(errors\.Invalid,(\w+)\)`).FindStringSubmatch(t); m != nil && strings.Contains(t, "errors.Match(fatalErr,"+m[1]+")") {
 			// falls through to, or itself contains, task.Errorf + return
 			for _, st := range cc.Body {
 				if b, ok := st.(*ast.BranchStmt); ok && b.Tok == token.FALLTHROUGH {
@@ -467,8 +478,10 @@ func c16r4(c *RC) {
 	for _, l := range fn.Lits {
 		ast.Inspect(l.Body, func(n ast.Node) bool {
 			if a, ok := n.(*ast.AssignStmt); ok && len(a.Lhs) == 1 {
-				if ix, ok := a.Lhs[0].(*ast.IndexExpr); ok && expr(ix.X) == "slicemachines" {
-					host, store = l, a
+				if ix, ok := a.Lhs[0].(*ast.IndexExpr); ok {
+					if tv := l.Pkg.Info.Types[ix.X]; tv.Type != nil && typeString(tv.Type) == "[]*exec.sliceMachine" {
+						host, store = l, a
+					}
 				}
 			}
 			return true
